@@ -424,6 +424,11 @@ theorem attrEv_effPres (n : QName) (v : Option Str) : EffPres (attrEv n v) := by
   · exact ⟨rfl, rfl⟩
   · cases m <;> cases x <;> (try (rename_i e; cases e)) <;> exact ⟨rfl, rfl⟩
 
+theorem attrFnEv_effPres (n : QName) (f : QName → AttrList → Option Str) : EffPres (attrFnEv n f) := by
+  rintro ⟨_ | m, x⟩
+  · exact ⟨rfl, rfl⟩
+  · cases m <;> cases x <;> (try (rename_i e; cases e)) <;> exact ⟨rfl, rfl⟩
+
 theorem mapBangEv_effPres (all : Bool) : EffPres (mapBangEv all) := by
   rintro ⟨_ | m, x⟩
   · exact ⟨rfl, rfl⟩
